@@ -219,8 +219,8 @@ CLAIMS['C12'] = dict(
          'Settings::userDefines into DUI::defines and Settings::userUndefs into DUI::undefined on every path; every insertion into the macro table of simplecpp::preprocess is guarded by a '
          'lookup in DUI::undefined (for a predefined macro: of that name); the loops over the configurations of a file end early only under the terminate test or the '
          '!force && n > maxConfigs test; the configuration enumerator receives -D and -U for the main file and for every included file and passes the -U set to every condition it reads. '
-         'the key of the duplicate-configuration purge (TokenList::calculateHash) reads text, binding, classification, flags and original name of every token. '
-         'the #elif/#else arm of the enumerator keeps its condition stack balanced. Two defects were repaired (predefined macros ignored -U; #else popped the enclosing #ifdef).',
+         'The key of the duplicate-configuration purge (TokenList::calculateHash) reads text, binding, classification, flags and original name of every token. '
+         'The #elif/#else arm of the enumerator keeps its condition stack balanced. Two defects were repaired (predefined macros ignored -U; #else popped the enclosing #ifdef).',
     design='3/C12 and 8.2', note='Which configurations Preprocessor::getConfigs enumerates for a given conditional structure, the configuration strings, and simplecpp\'s evaluation of '
                                  'conditions are value dependent and not decided.')
 
